@@ -129,7 +129,10 @@ DecMan == <<<<1>>, <<2>>, <<3>>, <<5>>, <<7>>, <<9>>, <<1,7>>, <<2,5>>, <<3,3>>,
             <<9,0,0,7,1,9,9,2,5,4,7,4,0,9,9,3,0,0,0,1>>, <<7,2,0,5,7,5,9,8,3,3,2,8,9,5,2,3,2,0,0,1>>,
             <<7,2,0,5,7,5,9,4,0,3,7,9,2,7,9,4,4,0,0,1>>,
             <<1,2,3,4,5,6,7,8,9,0,1,2,3,4,5,6,7,8,9,1>>, <<9,9,9,9,9,9,9,9,9,9,9,9,9,9,9,9,9,9,9,9>>,
-            <<3,3,3,3,3,3,3,3,3,3,3,3,3,3,3,3,3,3,3,3>>, <<3,1,4,1,5,9,2,6,5,3,5,8,9,7,9,3,2,3,8,5>>>>
+            <<3,3,3,3,3,3,3,3,3,3,3,3,3,3,3,3,3,3,3,3>>, <<3,1,4,1,5,9,2,6,5,3,5,8,9,7,9,3,2,3,8,5>>,
+            <<8,0,0,0,0,4,8,6,3,0,6,0,6,0,6,3,8,6>>>>
+(* the constants that expose a double rounding through long double (with exponents -4, -3, -3, -17): never subsampled *)
+DecAlways == {20, 21, 22, 27}
 DecExp == <<-25, -22, -17, -10, -5, -4, -3, -1, 0, 1, 3, 5, 10, 15, 22, 23, 25>>
 HexMan == <<<<1>>, <<3>>, <<12,8>>, <<10,11,12,13,14,15>>, <<1,15,15,15,15,15,15>>, <<1,0,0,0,0,0,1>>, <<1,0,0,0,0,0,3>>,
             <<1,15,15,15,15,15,15,15,15,15,15,15,15,15>>, <<3,15,15,15,15,15,15,15,15,15,15,15,15,15>>,
@@ -186,7 +189,7 @@ OIdx(o) == CASE o = "add" -> 1 [] o = "sub" -> 2 [] o = "mul" -> 3 [] o = "div" 
              [] OTHER -> 0
 TI(t) == IF t = "-" THEN 0 ELSE TIdx(t)
 CaseHash(cs) == OIdx(cs[2]) * 101 + TI(cs[3]) * 7 + (IF cs[1] \in {"d2l", "d2r"} THEN OIdx(cs[4]) * 17 ELSE TI(cs[4]) * 13)
-Pick(ii, jj) == Big => (hb + ii * 31 + jj * 37 + Seed) % Stride = 0
+Pick(ii, jj) == (Big /\ ~(fam = "dec" /\ ii \in DecAlways)) => (hb + ii * 31 + jj * 37 + Seed) % Stride = 0
 
 (* ---- Level A on the current case ------------------------------------------------ *)
 ValBytes(t, v) == IF IsF(t) THEN Encode(Fmt(t), v) ELSE IntBytes(t, v)
